@@ -1423,7 +1423,9 @@ def gen_copy_branch(ctx, inv, depth):
             acts[0].deferred = True
         steps.append(acts)
         types.append(t)
-    return Branch('n%d_0' % inv.inv, False, init, steps, types, 0)
+    # half of them `let mut`: a capture of another branch may then mutate the (Copy) value through the name (`w::snap_m`), also
+    # after this branch has finished — the macro's result must show the mutation, not a copy taken when the branch finished
+    return Branch('n%d_0' % inv.inv, ctx.chance(ctx.p.get('copymut', 0.5)), init, steps, types, 0)
 
 
 def add_name_reads(ctx, inv):
@@ -1577,8 +1579,6 @@ def ref_expr(inv, top=False):
     A = inv.is_async
     for k in range(maxd):
         active = [b for b in inv.branches if len(b.steps) > k]
-        for stmt in inv.ref_step_pre.get(k, []):
-            L.append(stmt)
         # captures: branch-then-position order, evaluated on the caller before the step
         for b in active:
             ops = []
@@ -1587,6 +1587,10 @@ def ref_expr(inv, top=False):
             ops.extend(caps_of(b.steps[k]))
             for o in ops:
                 L.append('let c%d = w::seg(&%s, %d, %d, || %s);' % (o.cap.ev, ig, CALLER, k, o.ref_block()))
+        # ordinary operands that read a Copy-valued name see it as it is when the step's branch expressions start: after the
+        # step's block captures (which may have mutated it through `&mut name`), before any branch expression of the step
+        for stmt in inv.ref_step_pre.get(k, []):
+            L.append(stmt)
         joiner = inv.joiner
         if joiner is not None and len(active) > 1:
             L.append('w::seg(&%s, %d, %d, || w::joiner(%d, %d));' % (ig, CALLER, k, joiner['ev'], len(active)))
@@ -2312,6 +2316,32 @@ def slice_programs(slice_name, tier, master_seed, base_id):
                 p['nameread'] = 1.0
                 p['nest'] = 0.0
                 add(p, fam, 'sk-nameread-%s' % (dp,), require='w::seen(')
+            # ... and a `let mut` Copy-valued branch 0 that FINISHES EARLY and is mutated through its name by a capture of another
+            # branch in a later step: the macro's result must show the mutation
+            import re as _re6
+            for dp in [(1, 3), (2, 3, 3), (1, 2, 3)]:
+                p = dict(prof)
+                p['depth_profile'] = (lambda d: (lambda rng, nb: list(d)))(dp)
+                p['nameread'] = 1.0
+                p['copymut'] = 1.0
+                p['nest'] = 0.0
+                p['captures'] = 0.7
+                p['snapshots'] = 1.0
+                p['snap_mut'] = 1.0
+
+                def reqm(text, first=dp[0]):
+                    m = _re6.search(r'let mut (n\d+_0) = w::init::<(Option<)?usize', text)
+                    if not m:
+                        return False
+                    # the mutating capture must sit behind at least `first` step boundaries of its own branch
+                    for part in split_top(text):
+                        k = part.find('w::snap_m(')
+                        while k >= 0:
+                            if ('&mut %s)' % m.group(1)) in part[k:k + 40] and part[:k].count('~') >= first:
+                                return True
+                            k = part.find('w::snap_m(', k + 1)
+                    return False
+                add(p, fam, 'sk-copymut-%s' % (dp,), require=reqm)
     if slice_name == 'steps':
         # many steps (nine and more: two-digit step indices), alone and next to short branches
         for fam in fams:
